@@ -316,6 +316,26 @@ pub fn run_case(c: &Case) -> (String, String) {
     (obs, verdict)
 }
 
+/// Layer-1 stream: histories in which no line wraps and every frame fits (wide, tall terminal, short texts, top
+/// alignment), for the row-level model `Model/Rows.lean`; observation = the screen at every painted frame
+pub fn run_rows(seed: u64, tier: &str, out: &mut Out) {
+    let mut rng = Rng::new(seed ^ 0x2025);
+    let n = if tier == "thorough" { 100_000 } else { 3_000 };
+    for _ in 0..n {
+        let mut c = if rng.chance(1, 3) { gen_scenario(&mut rng) } else { gen_case(&mut rng, false) };
+        // texts were generated for widths of at most 20 columns (at most 2w+1 = 41 characters) and at most 6-8 bars
+        c.w = 60; c.h = 80;
+        let case = encode(&c).replacen("MULTI", "ROWS", 1);
+        let (obs, verdict) = run_case(&c);
+        // keep the screens only: "r,c rows ; r,c rows" -> "rows ; rows"
+        let (head, snaps) = obs.split_once("panicked=false").unwrap_or(("", ""));
+        let _ = head;
+        let frames: Vec<String> = snaps.split(" ; ").map(|s| s.trim_start().split_once(' ').map_or(String::new(), |(_, r)| r.to_string())).collect();
+        let frames = if snaps.trim().is_empty() { vec![] } else { frames };
+        out.emit(&case, &format!("panicked=false {} ORACLE {verdict}", frames.join(" ; ")));
+    }
+}
+
 /// C05 on MultiProgress targets: always rate limited, so that "skipped draws lose nothing" is judged at every
 /// painted frame (each member shows its latest requested rendering)
 pub fn run_limited(seed: u64, tier: &str, out: &mut Out) {
